@@ -295,9 +295,7 @@ def _sentinel_rules(rep, repo, app, route):
               'NullRoute is no longer a catch-all bound to handle_sentinel_condition', route, nri.node)
     # DispatchState bookkeeping
     dsc = app.cls('DispatchState')
-    ae = dsc.methods['add_exception']
-    ok = any(isinstance(c, ast.Call) and norm(c.func) == 'self.exceptions.append' and norm(c.args[0]) == ae.params()[1] for c in walk_body(ae.node))
-    rep.check('R06.c', fkey(ae), ok, 'add_exception appends (so [-1] is the most recent)' if ok else 'add_exception does not append', app, ae.node)
+    check_recording_order(rep, 'R06.c', repo, app, dsc)
     um = dsc.methods['update_methods']
     ok = any(isinstance(c, ast.Call) and norm(c.func) == 'self.allowed_methods.update' for c in walk_body(um.node))
     rep.check('R06.d', fkey(um), ok, 'update_methods unions into allowed_methods' if ok else 'update_methods does not union', app, um.node)
@@ -314,6 +312,86 @@ def _sentinel_rules(rep, repo, app, route):
     ok = asg.get('self.exceptions') == '[]' and asg.get('self.allowed_methods') == 'set()'
     rep.check('R06.c', fkey(dsi), ok, 'every request starts with an empty dispatch state' if ok else
               'DispatchState does not start empty: %s' % asg, app, dsi.node)
+
+
+def _list_target(fnode, e):
+    """the expression whose object a store / mutating call on ``e`` changes: subscripts stripped, single-definition
+    locals followed (``parked = self.exceptions; parked[0] = x`` changes self.exceptions)"""
+    while isinstance(e, ast.Subscript):
+        e = e.value
+    return resolve_local(fnode, e)
+
+
+def _records_at_end(fnode, st, field, prm):
+    """statement ``st`` puts ``prm`` behind the last element of self.<field>: append / extend or += by a one-element
+    display / insert at len(..) / re-binding to <old list> + [prm]"""
+    recv = lambda e: norm(_list_target(fnode, e)) == 'self.' + field
+    one = lambda e: isinstance(e, (ast.List, ast.Tuple)) and len(e.elts) == 1 and norm(e.elts[0]) == prm
+    if isinstance(st, ast.Expr) and isinstance(st.value, ast.Call) and isinstance(st.value.func, ast.Attribute) and \
+            not st.value.keywords and not isinstance(st.value.func.value, ast.Subscript) and recv(st.value.func.value):
+        c = st.value
+        if c.func.attr == 'append':
+            return len(c.args) == 1 and norm(c.args[0]) == prm
+        if c.func.attr == 'extend':
+            return len(c.args) == 1 and one(c.args[0])
+        if c.func.attr == 'insert':
+            return len(c.args) == 2 and norm(c.args[1]) == prm and isinstance(c.args[0], ast.Call) and call_name(c.args[0]) == 'len' and \
+                len(c.args[0].args) == 1 and not c.args[0].keywords and recv(c.args[0].args[0])
+        return False
+    if isinstance(st, ast.AugAssign) and isinstance(st.op, ast.Add) and not isinstance(st.target, ast.Subscript) and recv(st.target):
+        return one(st.value)
+    if isinstance(st, ast.Assign) and len(st.targets) == 1 and norm(st.targets[0]) == 'self.' + field and \
+            isinstance(st.value, ast.BinOp) and isinstance(st.value.op, ast.Add):
+        return not isinstance(st.value.left, ast.Subscript) and recv(st.value.left) and one(st.value.right)
+    return False
+
+
+def check_recording_order(rep, rule, repo, app, dsc, field='exceptions', recorder='add_exception'):
+    """The sentinel answers with ``exceptions[-1]``; that is the *most recent* non-breaking error only if recording is
+    an unconditional append: every call of add_exception puts its argument behind the last element on every path that
+    returns, the method does nothing else to the list, and nobody else in the package writes a dispatch state's list
+    (apart from the fresh empty list of __init__)."""
+    ae = dsc.methods.get(recorder)
+    if ae is None or len(ae.params()) < 2:
+        raise AnalysisError('DispatchState.%s(self, exception) not found' % recorder)
+    prm = ae.params()[1]
+    acfg = cfg_of(ae)
+    rebound = any(isinstance(n, ast.Name) and n.id == prm and isinstance(n.ctx, (ast.Store, ast.Del)) for n in walk_body(ae.node))
+    recs = [s for s in stmts_of(ae.node) if _records_at_end(ae.node, s, field, prm)]
+    ok = bool(recs) and not rebound
+    rep.check(rule, fkey(ae), ok, 'add_exception appends (so [-1] is the most recent)' if ok else 'add_exception does not append', app, ae.node)
+    if ok:
+        always = acfg.must_pass(acfg.nodes_of_all(recs), acfg.entry, acfg.exit, normal_only=True)
+        rep.check(rule, fkey(ae, 'every call records'), always,
+                  'the append is unconditional: every recorded error becomes the last element' if always else
+                  '%s can return without appending its argument (the append is conditional): an error that is not appended is not the '
+                  'last element, so exceptions[-1] -- what the null route answers with -- is an older error, not the most recent one'
+                  % recorder, app, recs[0])
+        others = [e for e in effects.effects_in(ae.node)
+                  if norm(_list_target(ae.node, e.target)) == 'self.' + field and not any(e.node is s or e.node is getattr(s, 'value', None) for s in recs)]
+        rep.check(rule, fkey(ae, 'nothing else'), not others,
+                  '%s does nothing else to the list' % recorder if not others else
+                  '%s also changes the recorded errors by %s: the last element is no longer the most recently recorded error'
+                  % (recorder, '; '.join(short(e.node) for e in others)), app, others[0].node if others else ae.node)
+    # who else writes the list of a dispatch state
+    fam = [dsc] + repo.subclasses(dsc, [app])
+    for m in repo.all_internal_modules():
+        for fi in m.functions.values():
+            own = fi.cls is not None and any(fi.cls is c for c in fam)
+            for e in effects.effects_in(fi.node):
+                t = _list_target(fi.node, e.target)
+                if not (isinstance(t, ast.Attribute) and t.attr == field):
+                    continue
+                if norm(t.value) == 'self' and not own:
+                    continue         # another class's attribute of the same name
+                if own and fi.name == recorder:
+                    continue         # judged above
+                ok = own and fi.name == '__init__' and e.kind == 'store' and isinstance(e.node, ast.Assign) and e.target is e.node.targets[0] and \
+                    ((isinstance(e.node.value, ast.List) and not e.node.value.elts) or norm(e.node.value) == 'list()')
+                rep.check(rule, 'recorded errors writer::%s::%s' % (fi.key, norm(e.node)[:70]), ok,
+                          'every dispatch state starts with its own empty list' if ok else
+                          '%s writes the recorded-errors list of a dispatch state (%s): the order of recording is no longer what exceptions[-1] reads'
+                          % (fi.key, short(e.node)), m, e.node)
 
 
 def _method_rules(rep, repo, app, route):
